@@ -59,6 +59,7 @@ type Relay struct {
 type RelayOpts struct {
 	AllowNoBookingID bool
 	BufferSize       int64
+	RawBufferSize    bool // pass BufferSize to relay.Relay exactly as given (0, negative, >512: the relay's own fallback applies)
 	PruneEvery       time.Duration
 	StatsEvery       time.Duration
 	Secret           string
@@ -75,7 +76,7 @@ func StartRelay(o RelayOpts) *Relay {
 	if o.PruneEvery == 0 {
 		o.PruneEvery = time.Minute
 	}
-	if o.BufferSize == 0 {
+	if o.BufferSize == 0 && !o.RawBufferSize {
 		o.BufferSize = 128
 	}
 	if o.StatsEvery == 0 {
